@@ -435,3 +435,23 @@ func (w *World) Sleep(d time.Duration) {
 	vrt.SleepFor(int64(d))
 	w.Quiesce()
 }
+
+// SleepAlive advances virtual time like Sleep but in steps of at most 20 s, sending NOP on
+// the given connections at each step the way a client library answers heartbeats (nsqd
+// closes a connection that stays silent for two heartbeat intervals).
+func (w *World) SleepAlive(d time.Duration, conns ...*WConn) {
+	for d > 0 {
+		step := d
+		if step > 20*time.Second {
+			step = 20 * time.Second
+		}
+		w.Sleep(step)
+		d -= step
+		for _, c := range conns {
+			if !c.Closed {
+				c.Cmd("NOP", nil)
+			}
+		}
+		w.Quiesce()
+	}
+}
